@@ -162,6 +162,8 @@ pub const FILE_ONLY: &[(u32, Backend)] = &[(1, Backend::File)];
 pub const ALL_FL: &[(u32, u8)] = &[(2, 0), (4, 1), (4, 2)];
 pub const LIST_FL: &[(u32, u8)] = &[(1, 1), (1, 2)];
 pub const CAPS: &[(u32, u32, u32)] = &[(2, 0, 16), (6, 24, 512), (2, 513, 4096)];
+/// CAPS plus a rare class of large arenas (buffers of many pages)
+pub const BIG_CAPS: &[(u32, u32, u32)] = &[(3, 0, 16), (9, 24, 512), (3, 513, 4096), (1, 70_000, 300_000)];
 pub const SMALL_CAPS: &[(u32, u32, u32)] = &[(1, 0, 16), (8, 24, 400), (1, 401, 1200)];
 
 impl Profile {
